@@ -12,6 +12,10 @@ QUICK_TIMEOUT_MS = int(os.environ.get("PYVC_TIMEOUT_MS", "30000"))
 
 
 EXTRA_REFUTERS: list = []
+# pack-registered fn(pc, goal) -> bool: True when a `sat` answer of the unbounded VC cannot be trusted as a counter-model
+# (the VC mentions a spec function that the pack keeps uninterpreted for proofs); the VC is then handed to the
+# bounded refuters like an `unknown` one.  Added for C04 (seq_max); proofs (`unsat`) are unaffected.
+SAT_UNTRUSTED: list = []
 
 
 class VCResult:
@@ -52,9 +56,10 @@ def check_vc(pc, goal, timeout_ms=None, want_model=True, use_cvc5=True) -> VCRes
     dt = time.time() - t0
     if r == z3.unsat:
         return VCResult("proved", "z3", dt)
-    if r == z3.sat:
+    untrusted = r != z3.unsat and any(f(pc, goal) for f in SAT_UNTRUSTED)
+    if r == z3.sat and not untrusted:
         return VCResult("refuted", "z3", dt, model=s.model() if want_model else None)
-    reason = s.reason_unknown()
+    reason = s.reason_unknown() if r != z3.sat else "sat with an uninterpreted spec function (not a counter-model by itself)"
     try:
         w = random_refute(pc, goal)
     except z3.Z3Exception:
@@ -68,7 +73,7 @@ def check_vc(pc, goal, timeout_ms=None, want_model=True, use_cvc5=True) -> VCRes
             why = None
         if why:
             return VCResult("refuted", "bounded-instantiation", time.time() - t0, model=None, reason=why)
-    if use_cvc5:
+    if use_cvc5 and not (untrusted and r == z3.sat):
         try:
             s_orig = z3.Solver()          # print the ORIGINAL assertions: after check() z3 prints internal symbols (seq.nth_i) cvc5 cannot parse
             s_orig.add(*pc)
@@ -80,7 +85,7 @@ def check_vc(pc, goal, timeout_ms=None, want_model=True, use_cvc5=True) -> VCRes
             dt2 = time.time() - t1
             if r2 == "unsat":
                 return VCResult("proved", "cvc5", dt + dt2, smt_size=len(smt2))
-            if r2 == "sat" and "forall" not in smt2 and "exists" not in smt2:
+            if r2 == "sat" and not untrusted and "forall" not in smt2 and "exists" not in smt2:
                 # (with quantifiers a `sat` of cvc5 is not trusted as a refutation: stays unknown)
                 return VCResult("refuted", "cvc5", dt + dt2, reason="cvc5 sat (no model decoded)", smt_size=len(smt2))
         except Exception as e:  # noqa
